@@ -18,3 +18,9 @@ claim('C20', 'model_checking',
       'step: from every state satisfying the invariant, one real one() call with rise, fall, checks symbolic in 1..10^9: invariant preserved, UP only on success with checks+1>=rise (directly only if rise<=1), DOWN symmetric, counter restarts at 1 on a contrary result, lines only for UP/DOWN/DISABLED and only on change with debounce. bmc: the real loop() from INIT for every result sequence of <=5 (quick) / 8 (thorough) rounds with rise/fall symbolic, debounce, withdraw-on-down and disable-file toggles symbolic: UP announced only after rise consecutive successes, DOWN only after fall failures, UP/DOWN eventually announced, metric+increase per IP, withdraw of every IP on exit.',
       'Trusted: z3, the AST lift of the nested closures (re-done from the current source every run), stubs for check()/disable file/sleep/signal/stdout. Text of the lines is concrete per path (metrics concrete).',
       'DESIGN.md section 5 C20')
+
+claim('C02', 'model_checking',
+      'symbolic execution of the real UPDATE decode path with z3 (every value byte of shaped messages, every byte of short ones) against an RFC reference decoder; JSON compared on one solver model per path in a clean interpreter',
+      'For 16 TLV skeletons (withdrawn/attributes/NLRI mixes, every common attribute, unknown transitive and non-transitive attributes, AS_PATH+AS4_PATH merge shorter/equal/longer, MP_REACH with 16- and 32-byte next hops, MP_UNREACH, both EOR forms, free-form withdrawn and NLRI sections that re-partition into 1..n prefixes) x 3 session shapes (ASN4, 2-byte, ADD-PATH receive) every feasible path of Message.unpack(UPDATE) -> Update.parse -> AttributeCollection.unpack -> decoders -> INET.unpack_nlri/MPRNLRI/MPURNLRI -> UpdateHandler -> Adj-RIB-In is executed with all value bytes, masks, PARTIAL/EXTENDED_LENGTH bits symbolic; z3 proves per path, for all values, that announce set, withdraw set, per-route next hop, path ids, attribute set and values (incl. merged AS_PATH) and the Adj-RIB-In content equal what oracle/update.py (written from RFC 4271/4760/7911/6793) extracts, and that no well-formed message is refused or treated as withdraw.  The JSON event is parsed and compared with the oracle on one model per path (witness).',
+      'Trusted: z3, the sx carriers (every path replayed concretely in a clean interpreter and compared), oracle/update.py, kits/session.py (Negotiated through the real OPEN flow).  Bounded by the skeleton list and <= 10 free bytes per free section; labelled/VPN/flow families are C15/C16.',
+      'DESIGN.md section 5 C02')
